@@ -59,7 +59,7 @@ class Keywords(SubCheck):
     def run(self, case):
         out = Outcome()
         name, spelling = case
-        c = self.svg.Color(spelling)
+        c = out.keep(self.svg.Color(spelling))
         if name == "none":
             out.outcome = "none"
             out.nontrivial.append("none")
@@ -109,7 +109,7 @@ class ShortHex(SubCheck):
         out = Outcome()
         exp = cs.hexcolor(case)
         for sp in (case, case.upper()):
-            c = self.svg.Color(sp)
+            c = out.keep(self.svg.Color(sp))
             obs = rgba_of(c)
             if obs != exp:
                 out.fail("%s denotes %r" % (sp, exp), list(exp), list(obs), spelling=sp)
@@ -157,7 +157,7 @@ class LongHex(SubCheck):
         out = Outcome()
         exp = cs.hexcolor(case)
         for sp in (case, case.upper()):
-            c = self.svg.Color(sp)
+            c = out.keep(self.svg.Color(sp))
             obs = rgba_of(c)
             if obs != exp:
                 out.fail("%s denotes %r" % (sp, exp), list(exp), list(obs), spelling=sp)
@@ -207,7 +207,7 @@ class RgbFunc(SubCheck):
     def run(self, case):
         out = Outcome()
         kind, r, g, b, a, s = case
-        c = self.svg.Color(s)
+        c = out.keep(self.svg.Color(s))
         obs = rgba_of(c)
         out.outcome = obs
         if kind == "int":
@@ -252,7 +252,7 @@ class HslFunc(SubCheck):
     def run(self, case):
         out = Outcome()
         h, s, l, a, sp = case
-        c = self.svg.Color(sp)
+        c = out.keep(self.svg.Color(sp))
         obs = rgba_of(c)
         out.outcome = obs
         (er, eg, eb), ar = cs.hsl(h, s, l, a)
